@@ -189,18 +189,30 @@ Check c13_rayleigh_error_bound : forall (n : nat) (A : arr R) (q : nat -> nat ->
     2 * Rabs (lam 0%nat) * g ^ (2 * k + 2) * rsum (n - 1) (fun i => c (S i) ^ 2).
 Print Assumptions c13_rayleigh_error_bound.
 
-(* PARTIAL.  Full statement (NOT proved; decided by the oracle of tools/props/c13.py only):
+(* PARTIAL.  Full statement (NOT proved in full; decided by the oracle of tools/props/c13.py):
      for every symmetric A = Q D Q^T of size n >= 1, D = diag(l1, .., ln) with |li| <= |l1| / 2
      for i >= 2, l1 <> 0 of either sign, <1, q1> <> 0, and every tolerance 0 < tol:
      power_method A tol = Ok (lam, v)  with  ||A v - lam v|| <= C sqrt(tol) |lam| ||v||  and
      |lam - l1| <= C tol |l1|   (C = 8).
-   Proved towards it (above): c13_rayleigh_residual (lam minimises the residual of v) and
+   Proved towards it: c13_rayleigh_residual (lam minimises the residual of v),
    c13_rayleigh_error_bound (under an eigen-decomposition hypothesis the k-th estimate converges to
-   l1 with ratio g^2).  What remains ORACLE-ONLY: (a) the link between the STOPPING RULE and the
-   error, i.e. |lam_k - lam_(k-1)| < tol |lam_k|  ==>  |lam_k - l1| <= C tol |l1| (needs monotonicity
-   of the Rayleigh sequence, which holds only for start components that are not too small:
-   measured, not proved); (b) the eigenvector residual bound ||A v - lam v|| <= C sqrt(tol) |lam| ||v||;
-   (c) the existence of the eigen-decomposition (spectral theorem) for symmetric A; (d) rounding.
+   l1 with ratio g^2), and -- at the END of this file -- gap (a), the link between the STOPPING RULE
+   and the error, INSIDE THE BASIN |lam_(k-1) - l1| <= (1 - g) |l1| / 2 (g <= 1/2 the spectral gap):
+   there the error contracts by 2 g^2 <= 1/2 per iteration (c13_rayleigh_error_contracts: the basin
+   is invariant, the errors decrease monotonically), hence |lam_k - lam_(k-1)| < tol |lam_k|  ==>
+   |lam_k - l1| < tol |l1|, i.e. C = 1 (c13_stop_rule_accuracy; c13_stop_rule_accuracy_pm for the
+   answer of power_method itself); the basin is entered at the latest at the first k with
+   4 g^(2k+2) sum_(i>=2) c_i^2 <= (1 - g) c_1^2 (c13_stop_rule_accuracy_after), and if the all-ones
+   start vector satisfies this for k = 0 then EVERY Ok answer is accurate
+   (c13_stop_rule_accuracy_start).
+   What remains ORACLE-ONLY: (a') an exit BEFORE the basin is entered: for a start vector almost
+   orthogonal to the dominant eigenvector (c_1 tiny) the Rayleigh sequence lingers near another
+   eigenvalue, two consecutive estimates can agree to within tol there and the algorithm stops
+   early with a wrong answer; no theorem can exclude this without a quantitative lower bound on
+   |c_1| in terms of tol, which is why the property's hypothesis "not orthogonal" is quantified in
+   the check over random Q and the oracle measures it; (b) the eigenvector residual bound
+   ||A v - lam v|| <= C sqrt(tol) |lam| ||v||; (c) the existence of the eigen-decomposition (spectral
+   theorem) for symmetric A; (d) rounding.
    Proved here: the case n = 1, where the answer is exact. *)
 Theorem c13_accuracy_partial : forall a es : R, a <> 0 -> 0 < es ->
   power_method [[a]] es = Ok (a, mk_arr 1 1 [1]).
@@ -243,3 +255,192 @@ Example c13_ragged : power_method (T := Z) [[1; 2]; [3]]%Z 1%Z = Err EInconsiste
 Proof. reflexivity. Qed.
 Example c13_cap : power_method (T := float) [[0]]%float 0x1p-30%float = Err ENoConvergence.
 Proof. vm_compute. reflexivity. Qed.
+
+(* ---- gap (a): the stopping rule and the eigenvalue error (Proofs/PowerStop.v) -------------
+   Hypotheses as in c13_rayleigh_error_bound with the property's spectral gap 0 <= g <= 1/2.
+   rho = eigenvalue of state k, rho' = eigenvalue of state k+1 (both exist by
+   c13_rayleigh_error_bound).  BASIN: |rho - lam_0| <= (1 - g) |lam_0| / 2. *)
+From SV Require Import Proofs.PowerStop.
+
+(* (3) Contraction: inside the basin the error shrinks by the factor 2 g^2 <= 1/2, so the basin is
+   invariant and from then on the errors decrease monotonically. *)
+Theorem c13_rayleigh_error_contracts : forall (n : nat) (A : arr R) (q : nat -> nat -> R) (lam c : nat -> R) (g : R),
+  (1 <= n)%nat -> ah A = n -> aw A = n ->
+  (forall i j, (i < n)%nat -> (j < n)%nat ->
+     dotf n (q i) (q j) = if (i =? j)%nat then 1 else 0) ->
+  (forall i s, (i < n)%nat -> (s < n)%nat -> mvf n (aget A) (q i) s = lam i * q i s) ->
+  (forall t, (t < n)%nat -> 1 = rsum n (fun i => c i * q i t)) ->
+  c 0%nat <> 0 -> lam 0%nat <> 0 -> 0 <= g <= 1 / 2 ->
+  (forall i, (1 <= i < n)%nat -> Rabs (lam i) <= g * Rabs (lam 0%nat)) ->
+  forall k rho x rho' x',
+    pm_state A k = Ok (rho, x) -> pm_state A (S k) = Ok (rho', x') ->
+    Rabs (rho - lam 0%nat) <= (1 - g) * Rabs (lam 0%nat) / 2 ->
+    Rabs (rho' - lam 0%nat) <= 2 * g ^ 2 * Rabs (rho - lam 0%nat) /\
+    Rabs (rho' - lam 0%nat) <= Rabs (rho - lam 0%nat) /\
+    Rabs (rho' - lam 0%nat) <= (1 - g) * Rabs (lam 0%nat) / 2.
+Proof. exact Proofs.PowerStop.rayleigh_error_contracts. Qed.
+Check c13_rayleigh_error_contracts : forall (n : nat) (A : arr R) (q : nat -> nat -> R) (lam c : nat -> R) (g : R),
+  (1 <= n)%nat -> ah A = n -> aw A = n ->
+  (forall i j, (i < n)%nat -> (j < n)%nat ->
+     dotf n (q i) (q j) = if (i =? j)%nat then 1 else 0) ->
+  (forall i s, (i < n)%nat -> (s < n)%nat -> mvf n (aget A) (q i) s = lam i * q i s) ->
+  (forall t, (t < n)%nat -> 1 = rsum n (fun i => c i * q i t)) ->
+  c 0%nat <> 0 -> lam 0%nat <> 0 -> 0 <= g <= 1 / 2 ->
+  (forall i, (1 <= i < n)%nat -> Rabs (lam i) <= g * Rabs (lam 0%nat)) ->
+  forall k rho x rho' x',
+    pm_state A k = Ok (rho, x) -> pm_state A (S k) = Ok (rho', x') ->
+    Rabs (rho - lam 0%nat) <= (1 - g) * Rabs (lam 0%nat) / 2 ->
+    Rabs (rho' - lam 0%nat) <= 2 * g ^ 2 * Rabs (rho - lam 0%nat) /\
+    Rabs (rho' - lam 0%nat) <= Rabs (rho - lam 0%nat) /\
+    Rabs (rho' - lam 0%nat) <= (1 - g) * Rabs (lam 0%nat) / 2.
+Print Assumptions c13_rayleigh_error_contracts.
+
+(* (4) The stopping rule: if state k is inside the basin and loop body k+1 passes the exit test
+   |rho' - rho| < tol |rho'| (cf. c13_exit_means_small_change), then |rho' - lam_0| < tol |lam_0|
+   (C = 1; because the error at least halves, the step rho' - rho is at least the new error). *)
+Theorem c13_stop_rule_accuracy : forall (n : nat) (A : arr R) (q : nat -> nat -> R) (lam c : nat -> R) (g : R),
+  (1 <= n)%nat -> ah A = n -> aw A = n ->
+  (forall i j, (i < n)%nat -> (j < n)%nat ->
+     dotf n (q i) (q j) = if (i =? j)%nat then 1 else 0) ->
+  (forall i s, (i < n)%nat -> (s < n)%nat -> mvf n (aget A) (q i) s = lam i * q i s) ->
+  (forall t, (t < n)%nat -> 1 = rsum n (fun i => c i * q i t)) ->
+  c 0%nat <> 0 -> lam 0%nat <> 0 -> 0 <= g <= 1 / 2 ->
+  (forall i, (1 <= i < n)%nat -> Rabs (lam i) <= g * Rabs (lam 0%nat)) ->
+  forall k rho x rho' x' tol,
+    pm_state A k = Ok (rho, x) -> pm_state A (S k) = Ok (rho', x') ->
+    Rabs (rho - lam 0%nat) <= (1 - g) * Rabs (lam 0%nat) / 2 ->
+    Rabs (rho' - rho) < tol * Rabs rho' ->
+    Rabs (rho' - lam 0%nat) < tol * Rabs (lam 0%nat).
+Proof. exact Proofs.PowerStop.stop_rule_accuracy. Qed.
+Check c13_stop_rule_accuracy : forall (n : nat) (A : arr R) (q : nat -> nat -> R) (lam c : nat -> R) (g : R),
+  (1 <= n)%nat -> ah A = n -> aw A = n ->
+  (forall i j, (i < n)%nat -> (j < n)%nat ->
+     dotf n (q i) (q j) = if (i =? j)%nat then 1 else 0) ->
+  (forall i s, (i < n)%nat -> (s < n)%nat -> mvf n (aget A) (q i) s = lam i * q i s) ->
+  (forall t, (t < n)%nat -> 1 = rsum n (fun i => c i * q i t)) ->
+  c 0%nat <> 0 -> lam 0%nat <> 0 -> 0 <= g <= 1 / 2 ->
+  (forall i, (1 <= i < n)%nat -> Rabs (lam i) <= g * Rabs (lam 0%nat)) ->
+  forall k rho x rho' x' tol,
+    pm_state A k = Ok (rho, x) -> pm_state A (S k) = Ok (rho', x') ->
+    Rabs (rho - lam 0%nat) <= (1 - g) * Rabs (lam 0%nat) / 2 ->
+    Rabs (rho' - rho) < tol * Rabs rho' ->
+    Rabs (rho' - lam 0%nat) < tol * Rabs (lam 0%nat).
+Print Assumptions c13_stop_rule_accuracy.
+
+(* (5) The basin condition replaced by an explicit condition on k (via c13_rayleigh_error_bound):
+   4 g^(2k+2) sum_(i>=1) c_i^2 <= (1 - g) c_0^2.
+   HONESTLY: the stopping rule is reliable once the iteration is inside the basin.  Before that
+   -- a start vector almost orthogonal to the dominant eigenvector, c_0 tiny, so that the k of
+   this condition is large -- the algorithm can pass the exit test early, near another
+   eigenvalue, and no theorem can exclude it: that is why the property's hypothesis "not
+   orthogonal" is quantified in the check over random Q and the oracle measures it. *)
+Theorem c13_stop_rule_accuracy_after : forall (n : nat) (A : arr R) (q : nat -> nat -> R) (lam c : nat -> R) (g : R),
+  (1 <= n)%nat -> ah A = n -> aw A = n ->
+  (forall i j, (i < n)%nat -> (j < n)%nat ->
+     dotf n (q i) (q j) = if (i =? j)%nat then 1 else 0) ->
+  (forall i s, (i < n)%nat -> (s < n)%nat -> mvf n (aget A) (q i) s = lam i * q i s) ->
+  (forall t, (t < n)%nat -> 1 = rsum n (fun i => c i * q i t)) ->
+  c 0%nat <> 0 -> lam 0%nat <> 0 -> 0 <= g <= 1 / 2 ->
+  (forall i, (1 <= i < n)%nat -> Rabs (lam i) <= g * Rabs (lam 0%nat)) ->
+  forall k rho x rho' x' tol,
+    pm_state A k = Ok (rho, x) -> pm_state A (S k) = Ok (rho', x') ->
+    4 * g ^ (2 * k + 2) * rsum (n - 1) (fun i => c (S i) ^ 2) <= (1 - g) * c 0%nat ^ 2 ->
+    Rabs (rho' - rho) < tol * Rabs rho' ->
+    Rabs (rho' - lam 0%nat) < tol * Rabs (lam 0%nat).
+Proof. exact Proofs.PowerStop.stop_rule_accuracy_after. Qed.
+Check c13_stop_rule_accuracy_after : forall (n : nat) (A : arr R) (q : nat -> nat -> R) (lam c : nat -> R) (g : R),
+  (1 <= n)%nat -> ah A = n -> aw A = n ->
+  (forall i j, (i < n)%nat -> (j < n)%nat ->
+     dotf n (q i) (q j) = if (i =? j)%nat then 1 else 0) ->
+  (forall i s, (i < n)%nat -> (s < n)%nat -> mvf n (aget A) (q i) s = lam i * q i s) ->
+  (forall t, (t < n)%nat -> 1 = rsum n (fun i => c i * q i t)) ->
+  c 0%nat <> 0 -> lam 0%nat <> 0 -> 0 <= g <= 1 / 2 ->
+  (forall i, (1 <= i < n)%nat -> Rabs (lam i) <= g * Rabs (lam 0%nat)) ->
+  forall k rho x rho' x' tol,
+    pm_state A k = Ok (rho, x) -> pm_state A (S k) = Ok (rho', x') ->
+    4 * g ^ (2 * k + 2) * rsum (n - 1) (fun i => c (S i) ^ 2) <= (1 - g) * c 0%nat ^ 2 ->
+    Rabs (rho' - rho) < tol * Rabs rho' ->
+    Rabs (rho' - lam 0%nat) < tol * Rabs (lam 0%nat).
+Print Assumptions c13_stop_rule_accuracy_after.
+
+(* (6) The same for the answer of power_method itself (composition with
+   c13_exit_means_small_change): an Ok answer (ev, v) is state k+1 of the trace for some
+   k < MAX_ITERATIONS, and if the estimate prev of state k was inside the basin then
+   |ev - lam_0| < es |lam_0|. *)
+Theorem c13_stop_rule_accuracy_pm : forall (rows : list (list R)) (es ev : R) (v : arr R)
+    (n : nat) (A : arr R) (q : nat -> nat -> R) (lam c : nat -> R) (g : R),
+  power_method rows es = Ok (ev, v) -> try_from rows = Ok A ->
+  (1 <= n)%nat -> ah A = n -> aw A = n ->
+  (forall i j, (i < n)%nat -> (j < n)%nat ->
+     dotf n (q i) (q j) = if (i =? j)%nat then 1 else 0) ->
+  (forall i s, (i < n)%nat -> (s < n)%nat -> mvf n (aget A) (q i) s = lam i * q i s) ->
+  (forall t, (t < n)%nat -> 1 = rsum n (fun i => c i * q i t)) ->
+  c 0%nat <> 0 -> lam 0%nat <> 0 -> 0 <= g <= 1 / 2 ->
+  (forall i, (1 <= i < n)%nat -> Rabs (lam i) <= g * Rabs (lam 0%nat)) ->
+  exists (k : nat) (prev : R) (x : arr R),
+    (N.of_nat k < MAX_ITERATIONS)%N /\
+    pm_state A k = Ok (prev, x) /\ pm_state A (S k) = Ok (ev, v) /\
+    (Rabs (prev - lam 0%nat) <= (1 - g) * Rabs (lam 0%nat) / 2 ->
+     Rabs (ev - lam 0%nat) < es * Rabs (lam 0%nat)).
+Proof. exact Proofs.PowerStop.stop_rule_accuracy_pm. Qed.
+Check c13_stop_rule_accuracy_pm : forall (rows : list (list R)) (es ev : R) (v : arr R)
+    (n : nat) (A : arr R) (q : nat -> nat -> R) (lam c : nat -> R) (g : R),
+  power_method rows es = Ok (ev, v) -> try_from rows = Ok A ->
+  (1 <= n)%nat -> ah A = n -> aw A = n ->
+  (forall i j, (i < n)%nat -> (j < n)%nat ->
+     dotf n (q i) (q j) = if (i =? j)%nat then 1 else 0) ->
+  (forall i s, (i < n)%nat -> (s < n)%nat -> mvf n (aget A) (q i) s = lam i * q i s) ->
+  (forall t, (t < n)%nat -> 1 = rsum n (fun i => c i * q i t)) ->
+  c 0%nat <> 0 -> lam 0%nat <> 0 -> 0 <= g <= 1 / 2 ->
+  (forall i, (1 <= i < n)%nat -> Rabs (lam i) <= g * Rabs (lam 0%nat)) ->
+  exists (k : nat) (prev : R) (x : arr R),
+    (N.of_nat k < MAX_ITERATIONS)%N /\
+    pm_state A k = Ok (prev, x) /\ pm_state A (S k) = Ok (ev, v) /\
+    (Rabs (prev - lam 0%nat) <= (1 - g) * Rabs (lam 0%nat) / 2 ->
+     Rabs (ev - lam 0%nat) < es * Rabs (lam 0%nat)).
+Print Assumptions c13_stop_rule_accuracy_pm.
+
+(* (7) ... and unconditionally when the all-ones start vector already satisfies the condition of
+   (5) for k = 0 (then it holds for every k, g <= 1): EVERY Ok answer is accurate. *)
+Theorem c13_stop_rule_accuracy_start : forall (rows : list (list R)) (es ev : R) (v : arr R)
+    (n : nat) (A : arr R) (q : nat -> nat -> R) (lam c : nat -> R) (g : R),
+  power_method rows es = Ok (ev, v) -> try_from rows = Ok A ->
+  (1 <= n)%nat -> ah A = n -> aw A = n ->
+  (forall i j, (i < n)%nat -> (j < n)%nat ->
+     dotf n (q i) (q j) = if (i =? j)%nat then 1 else 0) ->
+  (forall i s, (i < n)%nat -> (s < n)%nat -> mvf n (aget A) (q i) s = lam i * q i s) ->
+  (forall t, (t < n)%nat -> 1 = rsum n (fun i => c i * q i t)) ->
+  c 0%nat <> 0 -> lam 0%nat <> 0 -> 0 <= g <= 1 / 2 ->
+  (forall i, (1 <= i < n)%nat -> Rabs (lam i) <= g * Rabs (lam 0%nat)) ->
+  4 * g ^ 2 * rsum (n - 1) (fun i => c (S i) ^ 2) <= (1 - g) * c 0%nat ^ 2 ->
+  Rabs (ev - lam 0%nat) < es * Rabs (lam 0%nat).
+Proof. exact Proofs.PowerStop.stop_rule_accuracy_pm_start. Qed.
+Check c13_stop_rule_accuracy_start : forall (rows : list (list R)) (es ev : R) (v : arr R)
+    (n : nat) (A : arr R) (q : nat -> nat -> R) (lam c : nat -> R) (g : R),
+  power_method rows es = Ok (ev, v) -> try_from rows = Ok A ->
+  (1 <= n)%nat -> ah A = n -> aw A = n ->
+  (forall i j, (i < n)%nat -> (j < n)%nat ->
+     dotf n (q i) (q j) = if (i =? j)%nat then 1 else 0) ->
+  (forall i s, (i < n)%nat -> (s < n)%nat -> mvf n (aget A) (q i) s = lam i * q i s) ->
+  (forall t, (t < n)%nat -> 1 = rsum n (fun i => c i * q i t)) ->
+  c 0%nat <> 0 -> lam 0%nat <> 0 -> 0 <= g <= 1 / 2 ->
+  (forall i, (1 <= i < n)%nat -> Rabs (lam i) <= g * Rabs (lam 0%nat)) ->
+  4 * g ^ 2 * rsum (n - 1) (fun i => c (S i) ^ 2) <= (1 - g) * c 0%nat ^ 2 ->
+  Rabs (ev - lam 0%nat) < es * Rabs (lam 0%nat).
+Print Assumptions c13_stop_rule_accuracy_start.
+
+(* non-vacuity of (3)-(5): A = diag(2, 1), q_i = e_i, c = (1, 1), g = 1/2 (the eigen hypotheses
+   are discharged inside the proof, as for c13_error_bound_nonvacuous): states 1 and 2 exist,
+   state 1 is inside the basin ((1 - g) |lam_0| / 2 = 1/2; indeed |rho_1 - 2| <= 1/4), the exit
+   test holds for tol = 1, and the conclusion follows *)
+Example c13_stop_rule_nonvacuous : exists rho x rho' x',
+  pm_state (mk_arr 2 2 [2; 0; 0; 1]) 1 = Ok (rho, x) /\
+  pm_state (mk_arr 2 2 [2; 0; 0; 1]) 2 = Ok (rho', x') /\
+  Rabs (rho - 2) <= (1 - 1 / 2) * Rabs 2 / 2 /\
+  Rabs (rho' - rho) < 1 * Rabs rho' /\
+  Rabs (rho' - 2) < 1 * Rabs 2.
+Proof. exact Proofs.PowerStop.stop_example. Qed.
+(* non-vacuity of (6)-(7): the 1 x 1 matrix (2), q = ((1)), c = (1), g = 0 *)
+Example c13_stop_rule_pm_nonvacuous : exists ev v, power_method [[2]] (1 / 2) = Ok (ev, v) /\
+  Rabs (ev - 2) < 1 / 2 * Rabs 2.
+Proof. exact Proofs.PowerStop.stop_pm_example. Qed.
